@@ -19,7 +19,13 @@ fn leaf_class(tab: &RuleTable, t: i64, dst: bool) -> &'static str {
     let y = cal::year_of_unix(t);
     let (s, e) = (tab.s(y), tab.e(y));
     let north = tab.class == RuleClass::North;
-    let pos = if t < s.min(e) { 0 } else if t < s.max(e) { 1 } else { 2 };
+    let pos = if t < s.min(e) {
+        0
+    } else if t < s.max(e) {
+        1
+    } else {
+        2
+    };
     match (north, pos, dst) {
         (true, 0, false) => "north/before_both/std",
         (true, 0, true) => "north/before_both/dst_inherited_from_previous_year",
@@ -105,7 +111,12 @@ fn sweep_degenerate(l: &mut Local, a: &AltSpec, tab: &RuleTable, y0: i64, years:
                         } else if a.dst.same_as(g) {
                             true
                         } else {
-                            l.violation("localtime(rule): the type reported is neither half of the rule", format!("find_local_time_type({}) on rule-only zone ({}) {}", t, how, a), format!("{} or {}", a.std, a.dst), format!("{}", TypeSpec::from_tz(g)));
+                            l.violation(
+                                "localtime(rule): the type reported is neither half of the rule",
+                                format!("find_local_time_type({}) on rule-only zone ({}) {}", t, how, a),
+                                format!("{} or {}", a.std, a.dst),
+                                format!("{}", TypeSpec::from_tz(g)),
+                            );
                             continue;
                         };
                         match first {
@@ -233,7 +244,7 @@ pub fn posix_string(a: &AltSpec) -> String {
     format!("{}{}{}{},{}/{},{}/{}", name(&a.std), posix_time(-a.std.off), name(&a.dst), posix_time(-a.dst.off), a.start.posix(), posix_time(a.start_time), a.end.posix(), posix_time(a.end_time))
 }
 
-fn check_rule(l: &mut Local, a: &AltSpec, rng: &mut Rng, years: i64, extremes: bool) {
+pub fn check_rule(l: &mut Local, a: &AltSpec, rng: &mut Rng, years: i64, extremes: bool) {
     let rz = match RuleZone::new(a) {
         Ok(r) => r,
         Err(e) => {
@@ -265,7 +276,9 @@ fn check_rule(l: &mut Local, a: &AltSpec, rng: &mut Rng, years: i64, extremes: b
                         let exp = if exp_dst { &a.dst } else { &a.std };
                         l.class("year_near_i32_extreme");
                         match facade::lookup(rz.zone(), t) {
-                            Ok(g) if !exp.same_as(g) => l.violation("localtime(rule): wrong answer near the end of the year range", format!("find_local_time_type({}) on {}", t, a), format!("{} or an error", exp), format!("{}", TypeSpec::from_tz(g))),
+                            Ok(g) if !exp.same_as(g) => {
+                                l.violation("localtime(rule): wrong answer near the end of the year range", format!("find_local_time_type({}) on {}", t, a), format!("{} or an error", exp), format!("{}", TypeSpec::from_tz(g)))
+                            }
                             _ => {}
                         }
                         n += 1;
